@@ -74,7 +74,8 @@ class C19(Prop):
                 args = [f] + args; spec.append('input=' + dots(f))
             out = None
             if rng.random() < 0.4:
-                if rng.random() < 0.25: out = os.path.join(d, 'nodir', 'sub', 'out.svg'); spec.append('nowrite=' + dots(out))
+                if rng.random() < 0.2 and os.path.exists('/dev/full'): out = '/dev/full'; spec.append('nowrite=' + dots(out))     # opens, but every write fails
+                elif rng.random() < 0.25: out = os.path.join(d, 'nodir', 'sub', 'out.svg'); spec.append('nowrite=' + dots(out))
                 else: out = os.path.join(d, 'out.svg')
                 args += ['-o', out]; spec.append('output=' + dots(out))
             cid = 'k%d' % i
@@ -85,7 +86,7 @@ class C19(Prop):
             except subprocess.TimeoutExpired:
                 code = 124; so = ''; se = b'timeout'
             writes = {}
-            if out and os.path.exists(out): writes[out] = open(out, encoding='utf-8', newline='').read()
+            if out and out != '/dev/full' and os.path.exists(out): writes[out] = open(out, encoding='utf-8', newline='').read()
             real[cid] = {'code': code, 'diag': len(se) > 0, 'out': so, 'writes': writes, 'args': args, 'mode': mode}
         # build mode
         nb = 20 if tier == 'quick' else 200
@@ -93,7 +94,7 @@ class C19(Prop):
             d = os.path.join(work, 'b%d' % i); src = os.path.join(d, 'src'); os.makedirs(src)
             outdir = os.path.join(d, 'out') if rng.random() < 0.6 else src
             spec = ['dir=1', 'outdir=' + dots(outdir), 'ext=' + dots('bob')]
-            names = rng.sample(['a', 'b', 'fig1', 'x y', 'é'], rng.randint(0, 4))
+            names = rng.sample(['a', 'b', 'fig1', 'x y', 'é', 'flow.v1', 'flow.v2', 'a.b.c'], rng.randint(0, 5))
             expect_names = []
             for nm in names:
                 ext = rng.choice(['bob', 'bob', 'bob', 'txt', 'BOB'])
